@@ -25,6 +25,22 @@ AllConfs == PullConfs({"mget", "mhead", "bget", "bhead", "two"}, CredKinds)
 CoreConfs == PullConfs({"bget", "two"}, {"up", "uptok"})
              \cup PushConfs({"bput", "copy"}, {"up"})
              \cup ExtConfs({"ext"}, {"up", "tok"})
+\* generator spaces: exhaustive to depth 2 in the quick tier, wider in the thorough tier
+QuickGenConfs ==
+  {Conf("bget", TRUE, c, m, FALSE, "E", "https") : c \in {"up", "uptok"}, m \in Bools}
+  \cup {Conf("mget", t, "up", TRUE, FALSE, "E", "https") : t \in Bools}
+  \cup {Conf("two", TRUE, "up", FALSE, ra, "E", "https") : ra \in Bools}
+  \cup {Conf("bput", TRUE, "up", FALSE, FALSE, "E", "https"), Conf("mput", TRUE, "tok", FALSE, FALSE, "E", "https"),
+        Conf("copy", TRUE, "up", FALSE, FALSE, "E", "https")}
+  \cup {Conf("ext", TRUE, "up", FALSE, FALSE, e[1], e[2]) : e \in ExtURLs}
+ThoroughGenConfs ==
+  PullConfs({"bget", "mget", "bhead"}, {"up", "uptok", "tok"})
+  \cup {Conf("two", TRUE, c, FALSE, ra, "E", "https") : c \in {"up", "tok"}, ra \in Bools}
+  \cup PushConfs({"bput", "mput", "copy"}, {"up", "tok"})
+  \cup ExtConfs({"ext"}, {"up", "tok"})
+  \cup {Conf("copyext", TRUE, "up", FALSE, FALSE, e[1], e[2]) : e \in ExtURLs}
+QuickChal == {"none", "b1", "t", "bt"}
+QuickFaults == {"nf", "err"}
 AllChal == {"none", "mal", "uns", "bnr", "b1", "b2", "t", "bt"}
 CoreChal == {"none", "b1", "b2", "t", "bt"}
 AllFaults == {"nf", "e5", "err"}
